@@ -74,4 +74,13 @@ package reconnect
 // redial budget and interval (defaults only for zero) and an empty reply table of its own.
 //@ func Dial
 //@   props C18
+//@   assert call Dialer).Dial: arg0.TransportID == c.DialConfig.TransportID && imp(old(c.DialConfig.TransportID) != "", arg0.TransportID == old(c.DialConfig.TransportID))   // the first dial uses the very config (generated transport id included) that the redial closure will read
 //@   assert go Transport).writeLoop: arg0 != nil && arg0.transport == tr && arg0.transport != nil && arg0.ctx != nil && arg0.writeResCh != nil && len(arg0.writeResCh) == 0 && arg0.maxReconnectAttempts == ite(old(c.MaxReconnectAttempts) == 0, 30, old(c.MaxReconnectAttempts)) && arg0.reconnectInterval == ite(old(c.ReconnectInterval) == 0, 1000000000, old(c.ReconnectInterval)) && arg0.logger != nil
+
+// After Close the transport is cancelled whatever the underlying Close returns: later Reads and
+// Writes fail instead of blocking, and the loops stop redialling.
+//@ func (*Transport).CloseWithStatus
+//@   props C18
+//@   ghostvar cancelled bool = false
+//@   after call dynamic field cancel: cancelled = true
+//@   ensures cancelled
